@@ -110,7 +110,12 @@ def Cluster.put (c : Cluster) (o : Live) : Cluster :=
 def Cluster.freshUid (c : Cluster) : String × Cluster :=
   (s!"uid-{c.nextUid + 1}", { c with nextUid := c.nextUid + 1 })
 
-def revStr (m : Manifest) : String := if m.id.kind = "Namespace" then "" else toString m.rev
+/-- only ConfigMaps and Secrets (and unknown kinds) carry content in the generated manifests -/
+def revStr (m : Manifest) : String :=
+  if m.id.group = "" ∧ (m.id.kind = "ConfigMap" ∨ m.id.kind = "Secret") then toString m.rev
+  else if (m.id.group = "" ∧ m.id.kind = "Namespace") ∨ (m.id.group = "rbac.authorization.k8s.io" ∧ m.id.kind = "ClusterRole") ∨
+          (m.id.group = "apps" ∧ m.id.kind = "Deployment") then ""
+  else toString m.rev
 
 /-- an object put into the store by somebody else (the environment) -/
 def Cluster.putPre (c : Cluster) (m : Manifest) : Cluster :=
